@@ -16,6 +16,7 @@ RULE = ('explicit-state BFS to fix-point; case = one transition (state incl. tri
         'run in lock-step on the same answers; non-trivial = text was pending or received')
 ASSUMPTIONS = ['alphabet / stream length bounded as in bounds; chunks of 1..2 characters and one empty read per call',
                'W in {None,1,2,3,4,L+1} per call']
+STATES_MEANING = 'distinct canonical product states (implementation buffers x reference pending text x budget), deduplicated, summed over tasks'
 REQUIRED_FLAGS = {'boundary_inside_match': 1, 'timeout_between_calls': 1, 'window_trim': 1,
                   'naive_match_outside_window_skipped': 1, 'match_on_existing': 1, 'match_after_read': 1}
 
